@@ -105,6 +105,28 @@ class Result:
                                 f"(anchor vanished?)")
 
 
+def confirmed_lost(prop_id, res):
+    """anti-vacuity: every rule that decided something on the confirmed tree must still decide something; a rule whose
+    recogniser matches nothing any more is an analysis error (exit 2), never a silent pass.  Returns a message or None."""
+    try:
+        conf_all = json.load(open(os.path.join(os.path.dirname(os.path.abspath(__file__)), "confirmed_rules.json")))
+    except Exception:
+        conf_all = {}
+    confirmed = conf_all.get(prop_id, [])
+    lost = [r_ for r_ in confirmed if res.rules.get(r_, {}).get("instances", 0) == 0]
+    # rules with few, structural instances (identities, recognisers): each confirmed instance must still be decided
+    for r_, keys_ in conf_all.get("instances", {}).get(prop_id, {}).items():
+        gone = sorted(set(keys_) - {k_.split(":unweighted")[0] for k_ in res.decided.get(r_, set())} - res.decided.get(r_, set()))
+        # an instance that now carries a finding has a longer key (suffix): compare by prefix
+        gone = [g_ for g_ in gone if not any(d_.startswith(g_) for d_ in res.decided.get(r_, set()))]
+        if gone and r_ not in lost:
+            lost.append(f"{r_}[{'; '.join(gone[:3])}]")
+    if lost:
+        return (f"rule(s) {lost} decided nothing on this tree (confirmed on the pinned tree): "
+                f"{'; '.join(res.not_in_fragment[:3]) or 'construct not recognised'}")
+    return None
+
+
 def load_known():
     if not os.path.exists(KNOWN_FILE):
         return []
